@@ -9,7 +9,7 @@ import traceback
 
 import lib
 
-ALL = ["tables", "lexer", "fgdefault", "proxyda"]
+ALL = ["tables", "lexer", "rdkitmaps", "ps", "rulemap", "fgdefault", "proxyda"]
 
 
 def regenerate(which=None):
